@@ -324,9 +324,12 @@ def run_reset_vs_construct(case: Dict, res: CaseResult):
     if power1 != power2:
         res.violate("reset-differs-from-construction:power-state",
                     f"node power states after construction {power1} vs after reset(seed={s}) {power2}")
-    elif obs1 != rec2[0]["obs"]:
-        res.violate("reset-differs-from-construction:first-obs", "first observation differs")
     else:
+        # the observation a constructed environment would give BEFORE any reset is not obtainable through the Gym API
+        # (reset() comes first); it contains build-time traffic (ARP at interface enable) where a reset environment
+        # shows the traffic of setup_for_episode. It is recorded as a label, not judged; everything step() returns is.
+        if obs1 != rec2[0]["obs"]:
+            res.label("private_pre_reset_obs_differs")
         rec2b: List[Dict] = []
         err2b = drive(e2, A, meta, rec2b, "reset", keep_state=True)
         if (err1 is None) != (err2b is None):
@@ -456,6 +459,9 @@ def judge_pristine(case: Dict, out: Dict) -> CaseResult:
         res.label("pristine_raised")
         return res
     a, b = out["episodes"]
+    if a.get("first_obs") != b.get("first_obs"):
+        res.label("private_pre_reset_obs_differs")  # see run_reset_vs_construct: not obtainable through the Gym API
+    a, b = dict(a, first_obs=None), dict(b, first_obs=None)
     d = diff_episode(a, b)
     if d:
         key = d[0]
